@@ -3,7 +3,8 @@
 cd "$(dirname "$0")/.."
 tier=${1:-quick}
 rc=0
-for id in $(./bin/pmc list); do
+ids=$(python3 -c "import json;print(' '.join(c['property_id'] for c in json.load(open('MANIFEST.json'))['checks']))")
+for id in $ids; do
   s=$(date +%s)
   ./run.sh $id $tier > /tmp/runall_$id.out 2>&1
   e=$?
